@@ -316,6 +316,12 @@ func (r *recorder) account(x *Ctx, caseJSON []byte, err error) {
 	defer r.mu.Unlock()
 	if errors.Is(err, ErrSkip) {
 		r.stats.Skipped++
+		// why a case was outside the domain is part of the evidence: classes named "skip:..." are kept
+		for c := range x.classes {
+			if strings.HasPrefix(c, "skip:") {
+				r.stats.Classes[c]++
+			}
+		}
 		return
 	}
 	r.stats.Evaluations++
